@@ -804,6 +804,33 @@ impl<T: Storage> RawNode<T> {
     pub fn set_batch_append(&mut self, batch_append: bool) {
         self.raft.set_batch_append(batch_append)
     }
+
+    /// Verification hook: read-only copy of private fields.
+    #[cfg(feature = "tikv_raft_rs_verif")]
+    pub fn verif_view(&self) -> crate::verif_export::VerifView {
+        let mut v = crate::verif_export::VerifView {
+            prev_hs: self.prev_hs.clone(),
+            prev_ss: (self.prev_ss.leader_id, self.prev_ss.raft_state),
+            max_number: self.max_number,
+            records: self
+                .records
+                .iter()
+                .map(|r| (r.number, r.last_entry, r.snapshot))
+                .collect(),
+            commit_since_index: self.commit_since_index,
+            heartbeat_elapsed: 0,
+            randomized_election_timeout: 0,
+            uncommitted_size: 0,
+            max_uncommitted_size: 0,
+            last_log_tail_index: 0,
+            promotable: false,
+            skip_bcast_commit: false,
+            batch_append: false,
+            max_committed_size_per_ready: 0,
+        };
+        self.raft.verif_fill_view(&mut v);
+        v
+    }
 }
 
 #[cfg(test)]
